@@ -23,7 +23,7 @@ RULE = (
     "for equivariance). Non-trivial = the input has a zero or negative eigenvalue. shapes: every non-square / non-2-D shape with > 1 element up to order 4 "
     "x 4 solver configs. Distinct = canonical JSON."
 )
-BOUNDS = "n <= 64; eigenvalues in [-1e-3*scale, scale]; eps >= 16*u*scale"
+BOUNDS = "n <= 64; eigenvalues in [-1e-3*scale, scale]; eps >= 16*u*scale; scales 1e-6..1e6 plus 1e+-20..1e+-30 (float32) and 1e+-60..1e+-100 (float64; beyond 1e+-140 the float64 oracle abstains)"
 TOLERANCES = "K = 64: symmetry K n u ||X||; commute K n u kappa^(1/r)-free bound ||A|| ||X||; lambda_max <= eps^(-1/r) (1 + K n u kappa / r); SPD when K n u kappa^(1/r) < 1; equivariance K*(n u kappa max(1,1/r) + exponent term) ||f(A)||"
 ASSUMPTIONS = ["epsilon is not below the dtype resolution of the matrix scale (the property's stated domain)"]
 NONTRIVIAL_FLOOR = 100
